@@ -3,20 +3,24 @@ import Driver.Codec
 import Driver.Pure
 import Driver.Layers
 import Driver.OS
+import Driver.BFS
 open Driver
 
-def dispatch (st : DState) (fs : List (List Char)) : DState × String :=
+def dispatch (st : BState) (fs : List (List Char)) : BState × String :=
   match pureCmd fs with
   | some out => (st, outFields out)
   | none =>
   match layerCmd fs with
   | some out => (st, outFields out)
   | none =>
-  match osCmd st fs with
+  match osCmd { fs := st.w.fs } fs with
+  | some (st', out) => ({ st with w := { st.w with fs := st'.fs } }, outFields out)
+  | none =>
+  match bfsCmd st fs with
   | some (st', out) => (st', outFields out)
   | none => (st, "bad-op")
 
-partial def loop (hin hout : IO.FS.Stream) (st : DState) : IO Unit := do
+partial def loop (hin hout : IO.FS.Stream) (st : BState) : IO Unit := do
   let line ← hin.getLine
   if line.isEmpty then return ()
   let line := if line.endsWith "\n" then (line.dropEnd 1).toString else line
